@@ -4,9 +4,9 @@
    correspondence of NoiseModel.apply(circuit).queue and circuit.with_pauli_noise(map).queue).
 
    Reading guide
-   - [spec_apply rules c] is the property text: for every gate of c in order, the gate itself and the
-     channels of the rules that fire on it, right after it -- right BEFORE it for a measurement
-     (readout errors).  [noise_apply_channels_local]: these channels act on a subset of the trigger's
+   - [spec_apply rules c] is the property text: for every gate of c in order, the gate itself followed by
+     the channels of the rules that fire on it; a measurement is PRECEDED by the channels of its readout
+     rules and followed by the others ([spec_block]).  [noise_apply_channels_local]: these channels act on a subset of the trigger's
      qubits (CustomError channels excepted: they are the user's fixed channel object).
    - FULL-STRENGTH STATEMENTS ARE FALSE of the faithful model (and of qibo): *_refuted.
      [noise_apply_exact_partial] / [noise_apply_skeleton_partial] hold on the inputs described by
@@ -39,6 +39,12 @@ Print Assumptions noise_apply_skeleton_partial.
 Theorem spec_apply_skeleton : forall rules c, erase (spec_apply rules c) = c.
 Proof. exact erase_spec_apply. Qed.
 Print Assumptions spec_apply_skeleton.
+
+(* a block of the specification contains the trigger and prescribed channels only *)
+Theorem spec_block_items : forall rules g it,
+  In it (spec_block rules g) -> it = Orig g \/ In it (prescribed rules g).
+Proof. exact spec_block_In. Qed.
+Print Assumptions spec_block_items.
 
 Theorem noise_apply_channels_local : forall rules g ch,
   In (Ins ch) (prescribed rules g) -> incl (c_qubits ch) (g_qubits g).
@@ -83,6 +89,11 @@ Theorem noise_apply_skeleton_refuted :
   exists rules coll0 c, option_map erase (apply rules coll0 c) <> Some c.
 Proof. exists two_readout, [], [gH; gM01]. exact skeleton_refuted_two_readout. Qed.
 Print Assumptions noise_apply_skeleton_refuted.
+
+Theorem noise_apply_exact_refuted :
+  exists rules coll0 c, apply rules coll0 c <> Some (spec_apply rules c).
+Proof. exists two_readout, [], [gH; gM01]. exact exact_refuted_two_readout. Qed.
+Print Assumptions noise_apply_exact_refuted.
 
 (* two readout rules on one measurement: RE(0) M RE(1) M M, and M.collapse becomes True *)
 Theorem noise_apply_two_readout_refuted :
